@@ -77,11 +77,11 @@ func (m *cmsRedis) Exec(op Tok) (opOut Tok, obs Tok) {
 		var err error
 		switch a[4].I() {
 		case 1:
-			s.UpdateOnce(a[2].B)
+			s.UpdateOnce(el(a[2].B))
 		case 2:
 			err = s.UpdateString(string(a[2].B), a[3].U())
 		default:
-			err = s.Update(a[2].B, a[3].U())
+			err = s.Update(el(a[2].B), a[3].U())
 		}
 		if err != nil {
 			return opOut, TErr(errGeneric)
@@ -99,7 +99,7 @@ func (m *cmsRedis) Exec(op Tok) (opOut Tok, obs Tok) {
 		if a[3].I() == 2 {
 			c, err = s.CountString(string(a[2].B))
 		} else {
-			c, err = s.Count(a[2].B)
+			c, err = s.Count(el(a[2].B))
 		}
 		if err != nil {
 			return opOut, TErr(errGeneric)
